@@ -1456,3 +1456,22 @@ func (c *ConcCtx) noteTruncation(st *State) {
 	c.truncs = append(c.truncs, [2]interface{}{st.PCTerm(), st.Thread.events[len(st.Thread.events)-1]})
 	st.Thread.rec.leafPCs = append(st.Thread.rec.leafPCs, st.PCTerm())
 }
+
+// envOp models the process environment as one sequentially consistent cell per (concrete) variable name
+func (c *ConcCtx) envOp(e *Exec, st *State, op string, key string, val *Term, site string) *Term {
+	loc := "a:env:" + key
+	if _, ok := c.inits[loc]; !ok {
+		c.inits[loc] = StrConst("")
+		c.sorts[loc] = StringSort
+	}
+	switch op {
+	case "get":
+		ev := c.emit(st, "load", loc, site)
+		ev.Read = e.fresh("env", StringSort)
+		return ev.Read
+	default:
+		ev := c.emit(st, "store", loc, site)
+		ev.Write = val
+		return nil
+	}
+}
